@@ -611,6 +611,10 @@ def builtin_call(self, name, e, st):
             if isinstance(v, Raise):
                 yield st1, v
                 continue
+            if v.ty in ("slist", "sexp"):
+                # iterator over a list of expressions: handed on to a callee under contract (next() on it is not modelled here)
+                yield st1, Val(v.t if v.ty == "slist" else SExp.items(v.t), "slist_iter")
+                continue
             s = self.seq_of(st1, v)
             yield st1, Val(None, "iter", (s, z3.IntVal(0)))
         return
